@@ -240,6 +240,14 @@ impl Property for C16 {
                 // length = sum of segment distances
                 let mut pts = vec![a, b];
                 pts.extend(c.more.iter().map(|p| Point::new(p.0, p.1)));
+                // one case in eight: a long line string (the same vertices over and over, 130 .. 330 coordinates)
+                if (c.bearing.to_bits() >> 9) % 8 == 0 {
+                    let base = pts.clone();
+                    let want_n = 130 + ((c.dist.to_bits() >> 11) % 200) as usize;
+                    while pts.len() < want_n {
+                        pts.extend(base.iter().cloned());
+                    }
+                }
                 let ls = LineString::from(pts.clone());
                 let sum: f64 = pts.windows(2).map(|w| (sp.dist)(w[0], w[1])).sum();
                 let len = (sp.length)(&ls);
